@@ -18,6 +18,7 @@ Static clauses decided (necessary conditions of C22):
  CROSS   operations that combine an object with a session check that the object's session cache is the current one and
          throw TransactionError otherwise (Attribute.validate, Set.validate, SetInstance.__contains__, Entity._load_,
          Entity.load).
+ PIN     C05's pin rule: the process-wide caches are keyed by ids of code objects that are pinned for the life of the process.
 """
 NOT_DECIDED = "data races inside a translator object shared by two threads; schedules"
 
